@@ -74,3 +74,17 @@ add('C02', 'stateful property-based testing (Hypothesis rule-based state machine
     'independence and evaluator agreement after every adopted step; failing histories shrink as one value and replay '
     'from the operation log without Hypothesis.',
     TRUST)
+
+add('C07', 'property-based testing against Python integer arithmetic (bit-sliced) on reference value vectors',
+    'Ten summation entry points x operand counts / weight vectors / basis spellings / endianness / host circuits; exact sum '
+    'identity, distinct levels, returned labels exist, host discipline, basis and gate-count predicates.',
+    TRUST + ' More than 14 input bits: 2048 seeded rows + corner rows only.')
+add('C08', 'finite width sweep + property-based testing against the integer product on reference value vectors',
+    'All small width pairs x modes x endianness exhaustively over operand values, recursion-triggering widths on sampled + '
+    'corner rows, and every add_mul*/add_square* on arbitrary host gates; product identity, result length, host discipline.',
+    TRUST + ' Wide circuits (>14 input bits) are checked on sampled rows only.')
+add('C09', 'property-based testing against Python integer arithmetic decoded row by row from reference tables',
+    'generate_* and add_* forms of sub / sub-with-compare / div-mod / sqrt / equality / plus-one / if-then-else / pairwise '
+    'gadgets on all 2^n rows, incl. unequal widths, b=0, constants that do not fit, add_outputs / result_labels options and '
+    'shape-mismatch rejection; output-marking and host-discipline predicates.',
+    TRUST)
